@@ -36,6 +36,9 @@ case("F-L", "C12", "name-error",
 case("F-L-generated", "C12", "name-error",
      "package src\n\ntype MyType struct{ A int }\n\ntype myType struct{ B int }\n\ntype Doer interface {\n\tDo(MyType, *myType) error\n}\n", cfg(["Doer"]),
      note="the type-derived name myType captures the local type myType")
+case("F-L-blank-tparam", "C12", "name-error",
+     "package src\n\ntype Thing[U any, _ any] interface {\n\tApply(U) error\n}\n", cfg(["Thing"]),
+     note="a blank type parameter is named v by moq; the unnamed parameter of type U is named v as well")
 case("F-S", "C12", "ident-vs-qualifier",
      "package src\n\nimport sync \"net/url\"\n\ntype Doer interface {\n\tLoad(url int, v *sync.Values) error\n}\n", cfg(["Doer"]),
      note="net/url is aliased sync in the source; registering the real sync renames it to url after the parameter url was allocated")
